@@ -14,7 +14,7 @@ use vpmodel::spec::ChainSpec;
 pub const DEF: PropDef = PropDef {
     id: "C12",
     level: "exploration",
-    rule: "chains on Namecoin/Dogecoin mixing block versions below, one below, equal to, one above and far above the coin's AuxPoW threshold (and high-bit versions), each block at or above the threshold carrying a generated AuxPoW section (parent coinbase in legacy or BIP144 form with any shape, branch lengths 0..40 incl. 32, arbitrary masks; plus two fixed blocks whose transactions total just under 4 000 000 bytes while the stored record with its section exceeds that); the six other coins with the same versions and no section as negative control. Oracle: csvdump == reference model (block hash, tx rows; blocksize = stored prefix including the section) with --verify; plus the metamorphic relation: the same logical blocks stored without sections under a coin without AuxPoW give identical blocks (except blocksize), transactions and tx_in files and identical tx_out rows except the address column. Non-trivial = a block with a section whose two branch lengths differ, or a block exactly at threshold or threshold-1; distinct by case hash.",
+    rule: "chains on Namecoin/Dogecoin mixing block versions below, one below, equal to, one above and far above the coin's AuxPoW threshold (and high-bit versions), each block at or above the threshold carrying a generated AuxPoW section (parent coinbase in legacy or BIP144 form with any shape, branch lengths 0..40 incl. 32, arbitrary masks; plus two fixed blocks whose transactions total just under 4 000 000 bytes while the stored record with its section exceeds that); the six other coins with the same versions and no section as negative control; runs at verbosity 0, -v, -vv and -vvv. Oracle: csvdump == reference model (block hash, tx rows; blocksize = stored prefix including the section) with --verify; plus the metamorphic relation: the same logical blocks stored without sections under a coin without AuxPoW give identical blocks (except blocksize), transactions and tx_in files and identical tx_out rows except the address column. Non-trivial = a block with a section whose two branch lengths differ, or a block exactly at threshold or threshold-1; distinct by case hash.",
     assumptions: &["the AuxPoW rule is the statement's: section present iff version >= threshold (0x10101 namecoin, 0x620102 dogecoin) compared as unsigned"],
     run,
     replay,
@@ -24,6 +24,9 @@ pub const DEF: PropDef = PropDef {
 pub struct Case {
     pub chain: ChainSpec,
     pub verify: bool,
+    /// -v / -vv / -vvv: logging must not change what is delivered
+    #[serde(default)]
+    pub verbose: u8,
 }
 
 pub fn strategy(tier: Tier) -> BS<Case> {
@@ -33,10 +36,10 @@ pub fn strategy(tier: Tier) -> BS<Case> {
     cfg.ntx = prop_oneof![4 => Just(0usize), 4 => 1usize..4].boxed();
     cfg.tx.max_common = 3;
     cfg.tx.max_value = u64::MAX;
-    (gen::chain(&cfg), any::<bool>()).prop_map(|(mut chain, verify)| {
+    (gen::chain(&cfg), any::<bool>(), prop_oneof![5 => Just(0u8), 1 => Just(1u8), 2 => Just(2u8), 1 => Just(3u8)]).prop_map(|(mut chain, verify, verbose)| {
         let verify = verify && genesis_block(chain.coin).is_some();
         chain.real_genesis = verify;
-        Case { chain, verify }
+        Case { chain, verify, verbose }
     }).boxed()
 }
 
@@ -47,13 +50,14 @@ pub fn check(c: &Case) -> Verdict {
     let w = infra!(World::create("c12", &mut plan));
     let mut o = RunOpts::new(coin, Callback::CsvDump);
     o.verify = c.verify;
+    o.verbose = c.verbose;
     let out = infra!(w.run(&o));
     if let Some(v) = timed_out_is_infra(&out) {
         return v;
     }
     let all = built.all();
     holds!(check_csvdump(coin, &all, &out, 0));
-    let mut classes = vec![format!("coin={}", coin.cli()), format!("verify={}", c.verify)];
+    let mut classes = vec![format!("coin={}", coin.cli()), format!("verify={}", c.verify), format!("verbosity={}", c.verbose)];
     let mut nontrivial = false;
     let th = coin.auxpow_threshold();
     let mut with_section = 0;
@@ -139,7 +143,7 @@ fn run(eng: &Engine, a: &Args) {
             b.version = th + 1;
             b.auxpow = Some(vpmodel::spec::AuxPowSpec { coinbase: b.coinbase.clone(), seed: 7, cb_branch_len: 1000, cb_mask: 5, chain_branch_len: 1000, chain_mask: 9 });
         }
-        big.push(Case { chain, verify: false });
+        big.push(Case { chain, verify: false, verbose: 0 });
     }
     eng.enumerate("near-4MB-block-with-section", big, check);
 }
